@@ -625,6 +625,7 @@ class Tr:
                 n = self.new("r")
                 hoist.append((n, "%s (%d) %s %s" % ("checked_div" if isinstance(e.op, ast.FloorDiv) else "checked_mod",
                                                     self.cfg["checked_div"], l, r)))
+                return n, ("Z",)
             if type(e.op) in (ast.FloorDiv, ast.Mod) and self.cfg.get("zero_division") is not None and self.M["type"] == "result":
                 # cfg["zero_division"]: a checked division (ZeroDivisionError = Err tag when the divisor is 0)
                 n = self.new("r")
@@ -1822,17 +1823,16 @@ class Tr:
         """`while True:` left only by `break` (or an exception): PyRt.res_while on the explicit fuel cfg["while_fuel"];
         `while T:` is `while True: if not T: break; ...` (the test is evaluated on the current state at every iteration)"""
         fuel = self.cfg.get("while_fuel")
-        plain = isinstance(st.test, ast.Constant) and st.test.value is True
         if st.orelse:
             raise Unsupported("while loop with an else clause")
-        if not plain and isinstance(st.test, ast.Constant):
+        if isinstance(st.test, ast.Constant) and st.test.value is not True:
             raise Unsupported("while loop over a constant other than True: " + ast.unparse(st.test))
-        if self.cfg.get("while_cond") and not (isinstance(st.test, ast.Constant) and st.test.value is True) and not st.orelse:
-            # cfg["while_cond"]: `while c: body` is `while True: if not c: break; body`
+        if self.cfg.get("while_cond") and not (isinstance(st.test, ast.Constant) and st.test.value is True):
+            # cfg["while_cond"]: `while c: body` is `while True: if not c: break; body` (same meaning as the general-test
+            # rendering below; two links were proved against the two renderings)
             leave = ast.If(test=ast.UnaryOp(op=ast.Not(), operand=st.test), body=[ast.Break()], orelse=[])
             st = ast.While(test=ast.Constant(value=True), body=[ast.copy_location(leave, st)] + list(st.body), orelse=[])
-        if not (isinstance(st.test, ast.Constant) and st.test.value is True) or st.orelse:
-            raise Unsupported("while loop other than `while True:` without else")
+        plain = isinstance(st.test, ast.Constant) and st.test.value is True
         if fuel is None or env.get(fuel) != ("nat",) or self.M["type"] != "result":
             raise Unsupported("while loop without a declared fuel parameter of type nat")
         if self.has_jump(st.body, (ast.Return,)):
